@@ -107,7 +107,25 @@ type vrScenario struct {
 	srcH     []*vrHandler // handler streams opened by source shards (their senders are idle)
 	tgtH     []*vrHandler // handler streams opened by target shards
 	wfFor    []string     // workflow id owned by target index t under nt shards
+	altNs    []string     // namespace id under which the workflow id of target (t+1)%nt is owned by target t
 	ackSeen  []int        // per source: number of acks already reported, per client stream incarnation
+}
+
+// vrAltNamespaces: for every target t a second namespace id such that the SAME workflow id that target (t+1)%nt owns under
+// "verif-ns" is owned by t under that namespace (ownership is a function of namespace id and workflow id together)
+func vrAltNamespaces(nt int, wfFor []string) []string {
+	res := make([]string, nt)
+	for t := 0; t < nt; t++ {
+		wf := wfFor[(t+1)%nt]
+		for k := 0; k < 100000; k++ {
+			ns := fmt.Sprintf("verif-alt-%d", k)
+			if int(servercommon.WorkflowIDToHistoryShard(ns, wf, int32(nt)))-1 == t {
+				res[t] = ns
+				break
+			}
+		}
+	}
+	return res
 }
 
 func vrWorkflowFor(nt int) []string {
@@ -213,6 +231,7 @@ func vrRunScenario(t *testing.T, lines []string, out func(string)) {
 	sc := &vrScenario{t: t, ns: ns, nt: nt, sm: sm, lifetime: lifetime, cancel: cancel,
 		reverse: &vrReverseClient{streams: map[history.ClusterShardID][]*vfClientStream{}},
 		srcH:    make([]*vrHandler, ns), tgtH: make([]*vrHandler, nt), wfFor: vrWorkflowFor(nt)}
+	sc.altNs = vrAltNamespaces(nt, sc.wfFor)
 	for s := 0; s < ns; s++ {
 		sc.openSource(s)
 	}
@@ -221,6 +240,8 @@ func vrRunScenario(t *testing.T, lines []string, out func(string)) {
 	out("I")
 	out(".")
 	stalls := map[int]chan struct{}{}
+	queuedAck := map[int]int64{}
+	aqNote := ""
 	for _, line := range lines[1:] {
 		f := strings.Fields(line)
 		if len(f) == 0 {
@@ -236,7 +257,10 @@ func vrRunScenario(t *testing.T, lines []string, out func(string)) {
 			for k := 0; k < n; k++ {
 				id, owner, pay := atoi64(4+3*k), atoi(5+3*k), f[6+3*k]
 				task := &replicationv1.ReplicationTask{SourceTaskId: id}
-				if owner >= 0 {
+				if owner >= 0 && strings.HasSuffix(pay, "~") && nt > 1 {
+					// same workflow id as the neighbouring target's tasks, in another namespace: owned by this target
+					task.RawTaskInfo = &persistencespb.ReplicationTaskInfo{NamespaceId: sc.altNs[owner], WorkflowId: sc.wfFor[(owner+1)%nt], RunId: pay, TaskId: id}
+				} else if owner >= 0 {
 					task.RawTaskInfo = &persistencespb.ReplicationTaskInfo{NamespaceId: "verif-ns", WorkflowId: sc.wfFor[owner], RunId: pay, TaskId: id}
 				} else if owner == -1 {
 					// not routable: no raw task info
@@ -295,6 +319,34 @@ func vrRunScenario(t *testing.T, lines []string, out func(string)) {
 			}
 			sc.settle()
 			sc.openSource(s)
+		case "AQ":
+			// an honest, lagging target: it has processed everything it received and computes its acknowledgement now (the
+			// greatest watermark it has been sent) - the acknowledgement travels and arrives at AF
+			if h := sc.tgtH[atoi(1)]; h != nil {
+				h.stream.mu.Lock()
+				queuedAck[atoi(1)] = h.stream.maxHigh
+				h.stream.mu.Unlock()
+				aqNote = fmt.Sprintf("AQ %d %d", atoi(1), queuedAck[atoi(1)])
+			}
+		case "AF":
+			if h := sc.tgtH[atoi(1)]; h != nil {
+				if wq, ok := queuedAck[atoi(1)]; ok {
+					delete(queuedAck, atoi(1))
+					h.stream.recv <- vfItem[vfReq]{val: &vfReq{Attributes: &adminservice.StreamWorkflowReplicationMessagesRequest_SyncReplicationState{
+						SyncReplicationState: &replicationv1.SyncReplicationState{InclusiveLowWatermark: wq}}}}
+				}
+			}
+		case "RO":
+			// the source re-opens its stream while the previous incarnation is still up (an ordinary reconnect): the new
+			// receiver evicts the old one
+			s := atoi(1)
+			old := sc.srcH[s]
+			sc.openSource(s)
+			sc.settle()
+			if old != nil {
+				old.stream.cancel()
+				<-old.done
+			}
 		case "XD":
 			// the target becomes a slow reader: every message takes <ms> to send
 			if h := sc.tgtH[atoi(1)]; h != nil {
@@ -324,6 +376,10 @@ func vrRunScenario(t *testing.T, lines []string, out func(string)) {
 		}
 		sc.settle()
 		out(f[0])
+		if aqNote != "" {
+			out(aqNote)
+			aqNote = ""
+		}
 		sc.report(out)
 		out(".")
 		if f[0] == "B" {
